@@ -22,6 +22,9 @@ Rules (all over MIR of zbus, configuration K1):
              stream is None returns Ready without polling
   P-ARMS     Item(Err(e)) completes with Err(e); NoneBefore / Terminated complete (Ready) without
              polling again; Poll::Pending is produced only on the Pending arm of the stream poll
+  P-STREAM   MessageStream::poll_next_before (what poll_before consumes) maps the receiver's poll faithfully:
+             Ready(Some(Ok(m))) -> Item{data: Ok(m)}, Ready(Some(Err(e))) -> Item{data: Err(e)},
+             Ready(None) -> Terminated, and Pending / NoneBefore only when the receiver returned Pending
   P-POLL     Future::poll goes through poll_before(.., None), never manufactures Pending, and maps
              the exhausted (None) result to an Err
   T-WRAP     every direct `.await` of a PendingMethodCall sits on the None arm of
@@ -63,6 +66,7 @@ def run(ctx):
     rule_channel(ctx, f)
     rule_poll_before(ctx, f)
     rule_poll(ctx, f)
+    rule_stream_arms(ctx, f)
     rule_timeout(ctx, f)
 
 
@@ -149,14 +153,15 @@ def rule_raw(ctx, f):
                "Ok(None) is returned only on the true edge of contains(NoReplyExpected)" if ok else
                "Ok(None) (no pending call) can be returned without NoReplyExpected being set", L.wh(raw, ln))
         oks = any(mir.block_dominates(raw, s.b, b) for s in sends)
-        ctx.ob("C-NOREPLY", "none-after-send", oks, "the message is sent before returning Ok(None)", L.wh(raw, ln))
+        ctx.ob("C-NOREPLY", "none-after-send", oks, "the message is sent before returning Ok(None)" if oks else "Ok(None) can be returned without sending", L.wh(raw, ln))
     for bi, i, pl, rv, ln in pend:
         ok = any(L.edge_dominates(raw, sb, ft, bi) for sb, tt, ft in edges)
         ctx.ob("C-NOREPLY", "pending-only-when-reply-expected", ok,
                "a PendingMethodCall is built only on the false edge of contains(NoReplyExpected)" if ok else
                "a PendingMethodCall is built although NoReplyExpected may be set (it would wait forever)", L.wh(raw, ln))
         oks = any(mir.block_dominates(raw, s.b, bi) for s in sends)
-        ctx.ob("C-NOREPLY", "pending-after-send", oks, "the message is sent before the pending call is handed out", L.wh(raw, ln))
+        ctx.ob("C-NOREPLY", "pending-after-send", oks, "the message is sent before the pending call is handed out" if oks else
+               "a pending call can be handed out without the message having been sent", L.wh(raw, ln))
 
 
 # ------------------------------------------------------------------------------------------ who
@@ -223,7 +228,8 @@ def rule_channel(ctx, f):
         other = L.agg_field(rv, "msg_receiver")
         if other is not None:
             ctx.ob("C-CHANNEL", "distinct-from-unfiltered-channel", not L.op_in(other, der),
-                   "msg_receiver (unfiltered stream) is a different channel", L.wh(new, ln))
+                   "msg_receiver (unfiltered stream) is a different channel" if not L.op_in(other, der) else
+                   "the unfiltered receiver and the method-return receiver are the same channel", L.wh(new, ln))
         for ty in ("MethodReturn", "Error"):
             mts = [c for c in mir.calls(new) if c.is_("msg_type") and "match_rule" in c.callee and len(c.args) > 1
                    and L.is_agg(new, c.args[1], L.TYPE, ty) is not None]
@@ -351,7 +357,8 @@ def rule_poll_before(ctx, f):
         cont = not L.exits_reachable(pb, [mism_t], avoid={P.b}) and P.b in mir.reachable(pb, [mism_t])
         ctx.ob("P-FILTER", "mismatch-continues", cont, "a reply with another serial is skipped and the stream polled again" if cont else
                "a reply with another serial can end the poll (returns without polling again)", c.where)
-        ctx.ob("P-FILTER", "match-edge-exclusive", L.sole_pred(pb, match_t, sb), "the match edge is entered only from the comparison", c.where)
+        ctx.ob("P-FILTER", "match-edge-exclusive", L.sole_pred(pb, match_t, sb), "the match edge is entered only from the comparison"
+               if L.sole_pred(pb, match_t, sb) else "the code after the serial match can also be entered without the comparison", c.where)
         match_targets.append(match_t)
     # from the Ok arm, returning requires passing a match edge
     if cmps:
@@ -371,7 +378,8 @@ def rule_poll_before(ctx, f):
     ctx.need([tsw] if tsw else [], "match on msg.message_type()", "P-TYPE")
     sb, arms, other, tc = tsw
     under_match = any(mir.block_dominates(pb, mt, sb) for mt in match_targets)
-    ctx.ob("P-TYPE", "type-test-after-serial-match", under_match, "the type is examined on the serial-match path", tc.where)
+    ctx.ob("P-TYPE", "type-test-after-serial-match", under_match, "the type is examined on the serial-match path" if under_match else
+           "the message type decides the completion without a preceding serial match", tc.where)
     msg_der = mir.derives(pb, msg_locals)
     table = {"MethodReturn": "Ok", "Error": "Err"}
     for v, want in table.items():
@@ -476,6 +484,46 @@ def rule_poll(ctx, f):
     ok = bool(errs) and not diverge
     ctx.ob("P-POLL", "exhausted-becomes-error", ok, "the None result of poll_before (stream gone) is mapped to an Err, nothing unwraps" if ok else
            "no Err is produced for the exhausted case, or the result is unwrapped (%d unwrap-like calls)" % len(diverge), poll.where)
+
+
+# ------------------------------------------------------------------------------------------ MessageStream::poll_next_before
+def rule_stream_arms(ctx, f):
+    pn = ctx.one(f.find(name="poll_next_before", adt=L.MS, trait="ordered_stream::OrderedStream"), "MessageStream::poll_next_before", "P-STREAM")
+    polls = [c for c in mir.calls(pn) if c.is_("poll_next") and "stream::Stream" in c.callee + c.declared]
+    S = ctx.one(polls, "the Stream::poll_next call in poll_next_before", "P-STREAM")
+    sl = S.dest[0]
+    PR = "ordered_stream::PollResult"
+    want = {"Pending": {"Pending"}, "NoneBefore": {"Pending"}, "Terminated": {"Ready", "None"}}
+    seen = set()
+    for bi, i, pl, rv, ln in L.aggregates(pn, POLL, "Pending") + L.aggregates(pn, PR, "NoneBefore") + L.aggregates(pn, PR, "Terminated"):
+        cx = L.arm_context(pn, f, sl, bi)
+        ok = want[rv[3]] <= cx
+        seen.add(rv[3])
+        ctx.ob("P-STREAM", "arm:" + rv[3], ok, "%s is produced only under the receiver's %s" % (rv[3], "/".join(sorted(want[rv[3]]))) if ok else
+               "%s is produced under receiver arms %s (expected %s)" % (rv[3], sorted(cx), sorted(want[rv[3]])), L.wh(pn, ln))
+    for bi, i, pl, rv, ln in L.aggregates(pn, PR, "Item"):
+        d = L.agg_field(rv, "data")
+        o = mir.origin(pn, d) if d is not None else ("?",)
+        if o[0] == "rv" and o[1][0] == "agg" and o[1][2] == RESULT:
+            v = o[1][3]
+            cx = L.arm_context(pn, f, sl, bi)
+            payload = set()
+            for b2, i2, pl2, rv2, ln2 in mir.assignments(pn):
+                for op in mir.rvalue_operands(rv2):
+                    p = mir.op_place(op)
+                    if p and p[0] == sl and any(isinstance(x, list) and x[0] == "as" and x[1] == v for x in p[1]):
+                        payload.add(pl2[0])
+            same = L.op_in(o[1][4][0], mir.derives(pn, payload, through_calls=False))
+            ok = {"Ready", "Some", v} <= cx and same
+            seen.add("Item(%s)" % v)
+            ctx.ob("P-STREAM", "arm:Item(%s)" % v, ok, "Ready(Some(%s(x))) is passed on as Item{data: %s(x)}" % (v, v) if ok else
+                   "Item{data: %s(..)} is produced under receiver arms %s, payload preserved=%s" % (v, sorted(cx), same), L.wh(pn, ln))
+        else:
+            ctx.ob("P-STREAM", "arm:Item(?)", False, "Item whose data is not a visible Ok/Err construction", L.wh(pn, ln))
+    for k in ("Pending", "Terminated", "Item(Ok)", "Item(Err)"):
+        ctx.ob("P-STREAM", "produces:" + k, k in seen, "poll_next_before can produce %s" % k if k in seen else
+               "poll_next_before never produces %s: %s" % (k, {"Terminated": "a closed channel would not end pending calls",
+                                                               "Item(Err)": "a connection error would not reach pending calls"}.get(k, "required arm missing")), pn.where)
 
 
 # ------------------------------------------------------------------------------------------ timeout
